@@ -175,7 +175,7 @@ func (e *env) checkOne(args []string, strategy int) (inf cmdInfo, v *verdict) {
 		return strings.Join(s, "; ")
 	}
 	switch {
-	case !ref.Supported(name):
+	case !ref.Supported(args[0]): // judged on the bytes sent, not on their lower-cased form (see ref.Supported)
 		if _, real := ref.Redis50[name]; real {
 			inf.unsupportedReal = true
 		}
@@ -238,6 +238,13 @@ func (e *env) checkOne(args []string, strategy int) (inf cmdInfo, v *verdict) {
 		_ = nrep
 	}
 	return inf, nil
+}
+
+// confusable replaces the letters k and i of a name by the Kelvin sign (U+212A) and the dotted capital I (U+0130), which
+// strings.ToLower maps to "k" and "i": a different byte string, hence a different (unsupported) command name.
+func confusable(name string) string {
+	r := strings.NewReplacer("k", "\u212a", "K", "\u212a", "i", "\u0130", "I", "\u0130")
+	return r.Replace(name)
 }
 
 func randomCase(t *rapid.T, s string) string {
@@ -308,7 +315,11 @@ func TestAllNames(t *testing.T) {
 				continue
 			}
 			for _, name := range allNames() {
-				for variant, nm := range []string{name, strings.ToUpper(name), strings.ToUpper(name[:1]) + name[1:], name} {
+				variants := []string{name, strings.ToUpper(name), strings.ToUpper(name[:1]) + name[1:], name}
+				if cf := confusable(name); cf != name {
+					variants = append(variants, cf) // a spelling that Unicode case folding maps onto the name: not the name
+				}
+				for variant, nm := range variants {
 					e.inline = variant == 3 // the fourth variant is the inline form
 					args := argsFor(nm, 1+variant%3)
 					c := cmdCase{Masters: 2, Replicas: replicas, Strategy: strategy, Cmds: [][]string{args}}
@@ -362,6 +373,9 @@ func TestRandomCommands(t *testing.T) {
 				name = rapid.SampledFrom(names).Draw(t, "name")
 			}
 			name = randomCase(t, name)
+			if rapid.IntRange(0, 7).Draw(t, "confusable") == 0 {
+				name = confusable(name)
+			}
 			var args []string
 			if strings.EqualFold(name, "eval") {
 				args = []string{name, "return 1", "1", rapid.StringMatching(`\{[ab]\}k[0-3]`).Draw(t, "key")}
